@@ -1114,7 +1114,7 @@ theorem save_twice {o : Obj} {os : OStream} {r r2 : SaveRes} {hd : Bytes} (hc : 
         rw [List.getElem?_replicate] at this
         split at this <;> cases this
       · have hg1 : g ∈ segs1 := (hperm.mem_iff).1 hg
-        unfold withoutSegment
+        rw [withoutSegment_eq]
         simp only [Bool.not_eq_false', List.any_eq_true]
         refine ⟨backFn ordered2 g, ?_, idx, by rw [(hback g hg1).1]; exact hidxm, by simpa using e⟩
         rw [putBack_eq_map]; exact List.mem_map_of_mem hg1
